@@ -12,7 +12,7 @@ use serde_json::{json, Map, Value};
 
 const STREAM: u64 = 8;
 
-pub const DEVIATIONS: [&str; 34] = [
+pub const DEVIATIONS: [&str; 35] = [
     "none",
     "member-arity",
     "member-nonarray",
@@ -46,6 +46,7 @@ pub const DEVIATIONS: [&str; 34] = [
     "name-collides-equal-value",
     "disclosure-trailing-text",
     "disclosure-invalid-utf8",
+    "dup-digest-far",
     "compose",
 ];
 
@@ -55,9 +56,9 @@ pub fn run(ctx: &Ctx) -> Report {
     let mut rep = Report::new(
         "fault_enumeration",
         "case i: a (payload, disclosures) pair produced by the harness's own encoder (nested objects/arrays depth<=3, hidden members and \
-         elements with present or withheld disclosures, decoys), with deviation kind i%34 forced at a random eligible site (kind \
+         elements with present or withheld disclosures, decoys), with deviation kind i%35 forced at a random eligible site (kind \
          'compose': 2-3 random deviations; 'none': well-formed control that must be accepted), signed with the test issuer key \
-         (alg=(i/34)%3), format=(i/102)%2. Oracle: specification verifier Spec (draft-07 §6.1). evaluations = tokens verified. \
+         (alg=(i/35)%3), format=(i/105)%2. Oracle: specification verifier Spec (draft-07 §6.1). evaluations = tokens verified. \
          Distinct = (payload shape, deviation set, format, alg); non-trivial = at least one deviation applied or >=1 referenced \
          disclosure.",
         local,
@@ -381,6 +382,32 @@ pub fn build(r: &mut Rng, force: &'static str, extra_pct: u64) -> (Value, Vec<St
     (payload, b.discs.clone(), b.applied.clone())
 }
 
+/// Two well-formed member disclosures (different names) whose digests agree in the first six
+/// base64url characters; searched once per process (~2^18 SHA-256).
+fn prefix_sharing_pair() -> (&'static str, &'static str) {
+    static P: std::sync::OnceLock<(String, String)> = std::sync::OnceLock::new();
+    let p = P.get_or_init(|| {
+        let mut seen: std::collections::HashMap<String, String> = std::collections::HashMap::new();
+        let mut i = 0u64;
+        loop {
+            let name = if i % 2 == 0 { "pfx_a#c08" } else { "pfx_b#c08" };
+            let d = b64e(json!([format!("s{i}"), name, i]).to_string().as_bytes());
+            let key = format!("{}{}", i % 2, &digest_of(&d)[..6]);
+            let other = format!("{}{}", 1 - i % 2, &digest_of(&d)[..6]);
+            if let Some(o) = seen.get(&other) {
+                return (o.clone(), d);
+            }
+            seen.insert(key, d);
+            i += 1;
+            if i > 4_000_000 {
+                // (never expected) fall back to two unrelated disclosures
+                return (b64e(b"[\"x\",\"pfx_a#c08\",1]"), b64e(b"[\"y\",\"pfx_b#c08\",2]"));
+            }
+        }
+    });
+    (p.0.as_str(), p.1.as_str())
+}
+
 fn shape(v: &Value) -> u64 {
     crate::gen::shape_fingerprint(v)
 }
@@ -388,8 +415,8 @@ fn shape(v: &Value) -> u64 {
 fn one_case(ctx: &Ctx, case: u64, l: &mut Local) {
     let mut r = Rng::for_case(ctx.seed, STREAM, case);
     let force = DEVIATIONS[(case % DEVIATIONS.len() as u64) as usize];
-    let alg = ALL_ALGS[((case / 34) % 3) as usize];
-    let fmt = FMTS[((case / 102) % 2) as usize];
+    let alg = ALL_ALGS[((case / 35) % 3) as usize];
+    let fmt = FMTS[((case / 105) % 2) as usize];
     let mut b = B {
         r: &mut r,
         discs: vec![],
@@ -433,11 +460,37 @@ fn one_case(ctx: &Ctx, case: u64, l: &mut Local) {
             discs.push(r.pick(&["bm90IGpzb24", "!!!", "W10=", "e30"]).to_string());
             applied.push("disclosure-not-json");
         }
+        "dup-digest-far" => {
+            // a long run of placeholders / _sd entries (unmatched digests) in which the LAST one repeats
+            // an early one: position 33, 65, 129, 257 of the digests processed
+            let n = *r.pick(&[33usize, 34, 65, 129, 257, 40]);
+            let mut ds: Vec<String> = (0..n - 1).map(|i| digest_of(&format!("far-{case}-{i}"))).collect();
+            let again = ds[r.usize(ds.len().min(32))].clone();
+            ds.push(again);
+            if r.chance(50) {
+                payload["far#c08"] = Value::Array(ds.iter().map(|d| json!({"...": d})).collect());
+            } else {
+                payload["far#c08"] = json!({"_sd": ds});
+            }
+            applied.push("dup-digest-far");
+        }
         _ => {
             if !payload.as_object().unwrap().contains_key("_sd_alg") && r.chance(50) {
                 payload["_sd_alg"] = json!("sha-256");
             }
         }
+    }
+    if force == "none" && (case / 35) % 2 == 0 {
+        // well-formed control: two DIFFERENT digests that share their first / last six characters
+        // (found once per process by a birthday search over salts); both claims must come out
+        let (a, b) = prefix_sharing_pair();
+        let mut sdl = payload.get("_sd").and_then(Value::as_array).cloned().unwrap_or_default();
+        sdl.push(json!(digest_of(a)));
+        sdl.push(json!(digest_of(b)));
+        payload["_sd"] = Value::Array(sdl);
+        discs.push(a.to_string());
+        discs.push(b.to_string());
+        l.count("control.digests-sharing-a-six-character-prefix");
     }
     if r.chance(6) {
         // nothing presented at all: every structural rule about the PAYLOAD still applies
@@ -491,7 +544,7 @@ fn one_case(ctx: &Ctx, case: u64, l: &mut Local) {
         disclosures: discs.clone(),
         kb,
     };
-    let pres = match parts.encode(fmt, case / 204) {
+    let pres = match parts.encode(fmt, case / 210) {
         Some(p) => p,
         None => return,
     };
